@@ -765,6 +765,69 @@ def c14_compositions(res, rng):
                 _ok(res, sig)
 
 
+def c14_programs(res, rng, i, seedlist=None):
+    """Random dataflow programs whose float output cannot depend on the differentiated argument:
+    (a) the program runs on q(x) with q piecewise constant; (b) on another argument; (c) x only feeds
+    dead branches. Every operator must return an exact zero of the right structure."""
+    import autograd.numpy as anp
+    from autograd import elementwise_grad, grad, hessian, jacobian, make_jvp, make_vjp, value_and_grad
+    from .graph import RAW_USER, user_prims
+
+    U = user_prims()
+    shape = [(3,), (2, 2)][i % 2]
+    prog = programs.gen_program(rng, n_ops=int(rng.choice([3, 6, 10])), shape=shape, p_dead=0.2, p_multi=0.3, families=("unary", "binary", "alias", "sparse", "reduce", "user"))
+    x = rng.uniform(0.3, 1.4, size=shape) * rng.choice([-1.0, 1.0], size=shape)
+    y = rng.uniform(0.3, 1.4, size=shape)
+    variant = ["floor", "sign", "compare", "round", "other_arg", "dead_only", "argsort", "where_mask"][i % 8]
+    if not programs.well_scaled(prog, onp.floor(x * 3.0), RAW_USER) or not programs.well_scaled(prog, y, RAW_USER):
+        return _nj(res, "ill_scaled")
+
+    def f(t, other=y):
+        if variant == "floor":
+            u = anp.floor(t * 3.0)
+        elif variant == "sign":
+            u = anp.sign(t) * 0.7
+        elif variant == "compare":
+            u = (t > 0.5) * 1.0 + 0.2
+        elif variant == "round":
+            u = anp.round(t) + 0.3
+        elif variant == "argsort":
+            u = anp.reshape(anp.argsort(anp.ravel(t)), shape) * 0.3
+        elif variant == "where_mask":
+            u = anp.where(t > 0.0, 1.3, -0.4) + anp.zeros_like(t)
+        elif variant == "other_arg":
+            u = other
+        else:
+            _dead = anp.sin(t) * anp.exp(t)  # computed, never used
+            u = other * 0.5
+        return programs.interpret(prog, u, anp, U)
+
+    st = programs.structure_signature(prog)
+    sig = {"engine": "values", "family": "independent_program", "variant": variant, "ops": st["ops"]}
+    case = {"kind": "independent_program", "seed_i": i, "seed": seedlist or [0, i, 101]}
+    ops = {
+        "grad": lambda: grad(f)(x), "value_and_grad": lambda: value_and_grad(f)(x)[1], "elementwise_grad": lambda: elementwise_grad(f)(x), "jacobian": lambda: jacobian(f)(x),
+        "hessian": lambda: hessian(f)(x), "make_vjp": lambda: make_vjp(f)(x)[0](1.0), "make_jvp": lambda: make_jvp(f)(x)(onp.ones(shape))[1],
+        "grad_of_grad": lambda: grad(lambda t: anp.sum(grad(f)(t)))(x), "jvp_of_grad": lambda: make_jvp(lambda t: grad(f)(t))(x)(onp.ones(shape))[1],
+    }
+    expect = {"grad": shape, "value_and_grad": shape, "elementwise_grad": shape, "jacobian": shape, "hessian": shape + shape, "make_vjp": shape, "make_jvp": (), "grad_of_grad": shape, "jvp_of_grad": shape}
+    for name, thunk in ops.items():
+        res["evaluations"] += 1
+        s2 = dict(sig, op=name)
+        try:
+            with warnings.catch_warnings():
+                warnings.simplefilter("ignore")
+                r = thunk()
+        except Exception as e:
+            _viol(res, s2, "exception:" + type(e).__name__, case, traceback.format_exc()[-300:])
+            continue
+        a = onp.asarray(r)
+        if r is None or find_boxes(r) or a.dtype.kind != "f" or a.shape != expect[name] or onp.any(a != 0):
+            _viol(res, s2, "nonzero_for_independent", case, "%s returned %s, expected exact zeros of shape %s" % (name, describe(r), expect[name]))
+            continue
+        _ok(res, s2)
+
+
 # ================================================================ driver
 
 
@@ -818,6 +881,13 @@ def run_shard(pid, tier, seed, idx, n):
         for j, fam in enumerate(fams):
             if j % n == idx % max(1, min(n, len(fams))) and idx < len(fams):
                 fam(res, rng)
+        nprog = 800 if tier == "quick" else 12000
+        for i in range(idx, nprog, n):
+            try:
+                c14_programs(res, onp.random.Generator(onp.random.PCG64([seed, i, 101])), i, [seed, i, 101])
+            except Exception:
+                _nj(res, "harness_error")
+                res["sets"].setdefault("harness_errors", set()).add(traceback.format_exc()[-400:])
     res["sets"] = {k: sorted(v) for k, v in res["sets"].items()}
     res["counters"]["wall_ms"] = int((time.time() - t0) * 1000)
     return res
@@ -858,6 +928,8 @@ def replay(pid, case):
     elif k in ("nograd", "nograd_constancy"):
         c14_nograd(res, rng)
         res["violations"] = [v for v in res["violations"] if v["case"].get("fn") == case["fn"] and v["case"]["kind"] == k and v["case"].get("template") == case.get("template") and v["case"].get("mode") == case.get("mode")]
+    elif k == "independent_program":
+        c14_programs(res, onp.random.Generator(onp.random.PCG64(case.get("seed", [0, case["seed_i"], 101]))), case["seed_i"], case.get("seed"))
     elif k in ("composition", "control_flow", "nested_independent"):
         c14_compositions(res, rng)
         res["violations"] = [v for v in res["violations"] if v["case"] == case]
